@@ -18,8 +18,26 @@
 (*            item sizes, sub-array and array shapes) as an opaque token,          *)
 (*            hash = a digest of its raw bytes (opaque token).                     *)
 (* A plain array has exactly one field.  kinds[i] is "M" (multi-byte numeric),     *)
-(* "B" (single-byte numeric) or "S" (byte string).                                 *)
+(* "B" (single-byte numeric), "S" (byte string) or "N" (a nested record holding a   *)
+(* multi-byte member and a byte-string member: decl / phys are those of the          *)
+(* multi-byte member, phys is "corrupt" when the string member changed).            *)
 (* An element of field i has its logical value  <=>  Resolve(decl[i]) = phys[i].   *)
+(*                                                                                 *)
+(* MEMORY LAYOUT.  The array handed to a conversion need not own a C-contiguous     *)
+(* buffer: it may be a window onto a larger PARENT buffer.  layout is one of        *)
+(*   "contig"   owns its C-contiguous buffer            "slice"  contiguous window  *)
+(*   "strided"  every k-th element (a[1::k])            "reversed" negative stride  *)
+(*   "column"   one column of an array one dimension up "fortran" 2-d, F-ordered    *)
+(*   "zerod"    0-d window                              "recview" field(s) of a     *)
+(*                                                        larger record (t['x'],    *)
+(*                                                        t[['a','c']])             *)
+(* The statement does not mention the layout: every clause holds for every layout,  *)
+(* and "the conversion happens in the caller's buffer" is read with its frame: the  *)
+(* bytes of the parent buffer that are NOT elements of the array (and the parent's   *)
+(* dtype) stay as they were.  A state carries  rest = "intact" | "changed"  for      *)
+(* that, and  lay = [cc, fc, owns, neg, nd]  (numpy's contiguity flags, OWNDATA,     *)
+(* a negative stride, the number of dimensions) of the initial array, so that TLC    *)
+(* checks the harness really built the layout the case asks for.                     *)
 (*                                                                                 *)
 (* A system state is [res : index of the current array (the last result),          *)
 (*                    arrs : Seq(array)] - every array object seen so far.         *)
@@ -27,7 +45,8 @@ EXTENDS VU
 
 CONSTANT MachineLE          \* TRUE on a little-endian machine
 
-BOKinds  == {"M", "B", "S"}
+BOKinds  == {"M", "B", "S", "N"}
+BOLayouts == {"contig", "slice", "strided", "reversed", "column", "fortran", "zerod", "recview"}
 BOSpells == {"<", ">", "=", "|"}
 BOFns    == {"native", "big", "little", "swap", "rnative"}   \* rnative = recfile.Util.to_native_inplace
 
@@ -37,10 +56,28 @@ BOFlip(p)     == IF p = "<" THEN ">" ELSE IF p = ">" THEN "<" ELSE p
 
 \* what a dtype built with order character sp declares for a field of kind k
 \* ("|" on a multi-byte type means "machine order"; any character on a one-byte type means "|")
-BODeclOf(k, sp) == IF k # "M" THEN "|" ELSE IF sp = "|" THEN BONative ELSE BOResolve(sp)
+BOMultiKinds == {"M", "N"}
+BODeclOf(k, sp) == IF k \notin BOMultiKinds THEN "|" ELSE IF sp = "|" THEN BONative ELSE BOResolve(sp)
 
-BOIsMulti(kinds, i) == kinds[i] = "M"
-BOMultis(kinds)     == {i \in DOMAIN kinds : kinds[i] = "M"}
+BOIsMulti(kinds, i) == kinds[i] \in BOMultiKinds
+BOMultis(kinds)     == {i \in DOMAIN kinds : kinds[i] \in BOMultiKinds}
+
+\* ---- memory layouts -----------------------------------------------------------------
+\* numpy reports the array C- or F-contiguous (what an implementation may be tempted to branch on)
+BOLayContiguous(layout, plain) == layout \in {"contig", "slice", "fortran", "zerod"} \/ (layout = "recview" /\ ~plain)
+\* the array is a window onto a parent buffer that has other bytes
+BOLayWindow(layout) == layout \notin {"contig", "fortran"}
+\* what the initial array of a case must look like (lay = observed flags)
+BOLayoutBuilt(layout, plain, lay) ==
+    CASE layout = "contig"   -> lay.owns /\ lay.cc
+      [] layout = "slice"    -> ~lay.owns /\ lay.cc /\ lay.nd >= 1
+      [] layout = "strided"  -> ~lay.owns /\ ~lay.cc /\ ~lay.fc /\ ~lay.neg
+      [] layout = "reversed" -> ~lay.owns /\ ~lay.cc /\ ~lay.fc /\ lay.neg
+      [] layout = "column"   -> ~lay.owns /\ ~lay.cc /\ ~lay.fc /\ ~lay.neg /\ lay.nd >= 1
+      [] layout = "fortran"  -> lay.fc /\ ~lay.cc /\ lay.nd = 2
+      [] layout = "zerod"    -> ~lay.owns /\ lay.nd = 0
+      [] layout = "recview"  -> ~lay.owns
+      [] OTHER -> FALSE
 
 \* ---- the predicates --------------------------------------------------------------
 BOIsBig(ch)    == BOResolve(ch) = ">"
@@ -93,6 +130,8 @@ BOStepFailing(kinds, pre, op, post) ==
          THEN {} ELSE {"other_array_modified"}) \cup
       (IF op.inplace \/ (pre.res \in DOMAIN post.arrs /\ post.arrs[pre.res] = pre.arrs[pre.res])
          THEN {} ELSE {"argument_modified"}) \cup
+      \* frame: the parent buffer's bytes outside the array, and the parent's dtype, stay as they were
+      (IF post.rest = pre.rest THEN {} ELSE {"parent_buffer_rest_untouched"}) \cup
       \* field structure
       (IF r.sig = a.sig /\ r.shp = a.shp /\ fieldsOK THEN {} ELSE {"field_structure"}) \cup
       (IF ~fieldsOK THEN {}
@@ -119,12 +158,15 @@ BOPairFailing(kinds, s0, op1, s1, op2, s2) ==
      THEN {"idempotent"} ELSE {})
 
 \* the initial array built by the harness must be what the case says (else the harness is wrong)
-BOInitFailing(kinds, spell, s0) ==
+BOInitFailing(kinds, spell, layout, plain, s0) ==
     IF /\ s0.res = 1 /\ Len(s0.arrs) = 1 /\ s0.err = "none"
        /\ Len(s0.arrs[1].decl) = Len(kinds) /\ Len(s0.arrs[1].phys) = Len(kinds)
        /\ \A i \in DOMAIN kinds : /\ BOResolve(s0.arrs[1].decl[i]) = BODeclOf(kinds[i], spell)
                                   /\ s0.arrs[1].phys[i] = BODeclOf(kinds[i], spell)
        /\ s0.arrs[1].grp = 1
+       /\ s0.rest = "intact"
+       /\ layout \in BOLayouts /\ BOLayoutBuilt(layout, plain, s0.lay)
+       /\ (plain => Len(kinds) = 1 /\ kinds[1] # "N")
     THEN {} ELSE {"init_mismatch"}
 
 \* predicates and descriptor stripping observed on the current array of a state
@@ -148,14 +190,23 @@ BODescrFailing(kinds, s) ==
            : k \in DOMAIN s.dn}
 
 \* ---------------------------------------------------------------------------------
-\* Implementation-shaped model of the swap decision (numpy_util.py:1232-1261, 1308-1328,
-\* 1355-1375; recfile/Util.py:988-1012): look for ONE decisive field, then swap the whole
-\* array with ndarray.byteswap and flip the whole dtype with dtype.newbyteorder.
+\* Implementation-shaped model of the code (numpy_util.py:1232-1261, 1308-1328, 1355-1375,
+\* 1378-1408; recfile/Util.py:988-1012): look for ONE decisive top-level field, then swap the
+\* whole array with ndarray.byteswap(inplace) and flip the whole dtype by assigning
+\* dtype.newbyteorder() to the .dtype of what byteswap returned.
 \*   FixedDetect = FALSE : the pinned code - for to_big / to_little a field without byte
 \*                         order ("|": i1, S) counts as "not big" / "not little";
 \*   FixedDetect = TRUE  : fields without byte order are skipped.
-BOMechDoSwap(kinds, v, fn, FixedDetect) ==
-    LET D(i) == BOResolve(v.decl[i])
+\*   NestedDetect = FALSE: a nested record reports "|" (numpy's byteorder of a void type), so its
+\*                         members' order is never seen by the detection;
+\*   NestedDetect = TRUE : the detection descends into nested records.
+\*   RetypeAlways = TRUE : the new dtype is assigned to the swapped object whatever its layout
+\*                         (the code as it is);
+\*   RetypeAlways = FALSE: a deviating variant that assigns .dtype only to C-/F-contiguous arrays and
+\*                         otherwise returns  outdata.view(newdtype)  - another object, the caller's
+\*                         array keeping the old dtype over swapped bytes.
+BOMechDoSwap(kinds, v, fn, FixedDetect, NestedDetect) ==
+    LET D(i) == IF kinds[i] = "N" /\ ~NestedDetect THEN "|" ELSE BOResolve(v.decl[i])
         F    == IF FixedDetect THEN {i \in DOMAIN kinds : D(i) # "|"} ELSE DOMAIN kinds
     IN IF fn \in {"native", "rnative"}
          THEN LET dataLittle == \E i \in DOMAIN kinds : D(i) = "<" IN MachineLE # dataLittle
@@ -163,9 +214,20 @@ BOMechDoSwap(kinds, v, fn, FixedDetect) ==
        ELSE IF fn = "little" THEN \E i \in F : D(i) # "<"
        ELSE TRUE
 
-BOMechConvert(kinds, v, fn, keep, FixedDetect) ==
-    IF BOMechDoSwap(kinds, v, fn, FixedDetect)
+BOMechConvert(kinds, v, fn, keep, FixedDetect, NestedDetect) ==
+    IF BOMechDoSwap(kinds, v, fn, FixedDetect, NestedDetect)
     THEN [decl |-> [i \in DOMAIN kinds |-> IF keep THEN BOResolve(v.decl[i]) ELSE BOFlip(BOResolve(v.decl[i]))],   \* newbyteorder(): "|" stays
           phys |-> [i \in DOMAIN kinds |-> BOFlip(v.phys[i])]]                                                    \* byteswap(): "|" stays
     ELSE [decl |-> [i \in DOMAIN kinds |-> BOResolve(v.decl[i])], phys |-> v.phys]
+
+\* one call seen as objects: what is returned (decl, phys), whether it IS the argument, and the
+\* dtype the argument object has afterwards
+BOMechStep(kinds, contiguous, v, op, FixedDetect, NestedDetect, RetypeAlways) ==
+    LET sw     == BOMechDoSwap(kinds, v, op.fn, FixedDetect, NestedDetect)
+        c      == BOMechConvert(kinds, v, op.fn, op.keep, FixedDetect, NestedDetect)
+        viewed == sw /\ op.inplace /\ ~op.keep /\ ~RetypeAlways /\ ~contiguous /\ op.fn # "rnative"
+        old    == [i \in DOMAIN kinds |-> BOResolve(v.decl[i])]
+    IN [decl |-> c.decl, phys |-> c.phys,
+        same |-> op.inplace /\ ~viewed,
+        argdecl |-> IF op.inplace /\ ~viewed THEN c.decl ELSE old]
 =============================================================================
